@@ -178,6 +178,10 @@ class FileParser:
                 + "to be a language this tool can process",
             )
         with open(filename, errors="replace") as source_file:
+            # Skip a byte-order mark, as compilers do.
+            if source_file.read(1) != "\ufeff":
+                source_file.seek(0)
+
             groups = {
                 "code": LineGroup(),
                 "directive": LineGroup(),
